@@ -1,9 +1,23 @@
 (** M3 — executable model of the control server's lifecycle (server.py: serve_forever /
     _serve_forever / _client_connected_cb; session.py: listen's loop condition) on top of the
     contract of asyncio's stream server (CPython 3.12.1): [Server.close] stops listening at once;
-    [Server.wait_closed] returns when every accepted connection has been closed by the server
-    side; a cancelled [serve_forever] closes, waits, and re-raises.  Each label is one action of
-    the environment followed by the system settling.  No proofs in this file. *)
+    [Server.wait_closed] returns when every connection *that server* accepted has been closed by
+    the server side; a cancelled [serve_forever] closes, waits, and re-raises.  Each label is one
+    action of the environment followed by the system settling.
+
+    Runs.  Every [serve_forever()] call that takes effect starts a new *run* (a fresh asyncio
+    server on the same address and a new serving task); connections belong to the run that
+    accepted them.  A run may be started after the previous task has completed (plain restart) or
+    while the previous, cancelled task still waits for its lingering clients (an overlap; ghost
+    flag [v_overlap]).  The control server object knows only its latest asyncio server, so
+    [is_serving()] - which every session consults after each line - speaks about the latest run,
+    also for the sessions of an earlier one; and every run's final callback removes the *same*
+    Unix socket path.  Both are mirrored here as they are in the code.
+
+    The pool.  [LClosePool]: the pool is closed from outside; commands that were waiting for that
+    (until-closed) return.
+
+    No proofs in this file. *)
 From Coq Require Export List Bool Arith Lia.
 Export ListNotations.
 
@@ -15,24 +29,32 @@ Record conn := {
   k_session : bool;          (* the session coroutine is still running (server side open) *)
   k_replies : nat;           (* replies written to this client, handshake reply included *)
   k_hello : bool;            (* the client has sent its handshake line *)
-  k_waiting : bool           (* the session is inside a command whose method waits (until-closed on a
-                                pool nobody closes): it reads no input and cannot notice that its
-                                client has gone *)
+  k_waiting : bool;          (* the session is inside a command whose method waits (until-closed on
+                                a pool not closed yet): it reads no input and cannot notice that
+                                its client has gone *)
+  k_gen : nat                (* the run that accepted the connection *)
 }.
 
 Record srv := {
   v_kind : transport;
   v_started : bool;          (* serve_forever() was awaited: a task was returned *)
-  v_listening : bool;        (* the address accepts connections; = is_serving() *)
-  v_stopreq : bool;          (* the serving task was cancelled *)
-  v_done : bool;             (* the serving task has completed *)
+  v_listening : bool;        (* the latest run's asyncio server is serving; = is_serving() *)
+  v_stopreq : bool;          (* the latest serving task was cancelled *)
+  v_done : bool;             (* the latest serving task has completed *)
   v_sockfile : bool;         (* Unix: the socket file exists *)
   v_conns : list conn;
-  v_refused : nat            (* connection attempts that were refused *)
+  v_refused : nat;           (* connection attempts that were refused *)
+  v_gen : nat;               (* number of the latest run (0: never started) *)
+  v_drain : list nat;        (* earlier runs whose serving task has not completed yet *)
+  v_overlap : bool;          (* ghost: some run was started while the previous task was unfinished *)
+  v_raised : bool;           (* the latest serving task ended with an exception (its final callback
+                                found the Unix socket file gone - only after an overlap) *)
+  v_pool_closed : bool       (* the pool was closed *)
 }.
 
 Inductive label :=
-| LStart                     (* await server.serve_forever() - also again, after a completed stop *)
+| LStart                     (* await server.serve_forever() - also again: after a completed stop,
+                                or while the cancelled task still waits for lingering clients *)
 | LConnect                   (* a client connects and performs the handshake *)
 | LConnectBad                (* a client connects and sends garbage instead of the handshake, or
                                 hangs up at once: the session fails, its connection is closed *)
@@ -40,15 +62,17 @@ Inductive label :=
                                 waits for the handshake line while other clients come and go *)
 | LHello (c : nat)           (* client c (connected by LOpen) sends its handshake line *)
 | LSend (c : nat)            (* client c sends one command line *)
-| LSendWait (c : nat)        (* client c sends a command whose method waits (until-closed; the pool
-                                is never closed in this model): no reply, the session stays inside it *)
+| LSendWait (c : nat)        (* client c sends until-closed: no reply while the pool is open, the
+                                session stays inside the command *)
 | LLeave (c : nat)           (* client c disconnects (clean close, 'exit' command or EOF) *)
 | LAbort (c : nat)           (* client c vanishes abruptly (reply left unread, connection torn down) *)
-| LStop.                     (* the serving task is cancelled *)
+| LStop                      (* the latest serving task is cancelled *)
+| LClosePool.                (* the pool is closed (gather_and_close() from outside) *)
 
 Definition init (k : transport) : srv :=
   {| v_kind := k; v_started := false; v_listening := false; v_stopreq := false; v_done := false;
-     v_sockfile := false; v_conns := []; v_refused := 0 |}.
+     v_sockfile := false; v_conns := []; v_refused := 0; v_gen := 0; v_drain := [];
+     v_overlap := false; v_raised := false; v_pool_closed := false |}.
 
 Fixpoint upd {A} (l : list A) (n : nat) (x : A) : list A :=
   match l, n with
@@ -59,88 +83,114 @@ Fixpoint upd {A} (l : list A) (n : nat) (x : A) : list A :=
 
 Definition all_sessions_ended (cs : list conn) : bool := forallb (fun c => negb (k_session c)) cs.
 
-(** after a stop request the serving task completes as soon as no session is left; the final
-    callback then removes a Unix server's socket file *)
-Definition settle (s : srv) : srv :=
-  if v_stopreq s && negb (v_done s) && all_sessions_ended (v_conns s)
-  then {| v_kind := v_kind s; v_started := v_started s; v_listening := false;
-          v_stopreq := true; v_done := true; v_sockfile := false; v_conns := v_conns s;
-          v_refused := v_refused s |}
-  else s.
+(** no session of run [g] is left *)
+Definition run_ended (g : nat) (cs : list conn) : bool :=
+  forallb (fun c => negb (k_session c && Nat.eqb (k_gen c) g)) cs.
+
+Definition is_unix (s : srv) : bool := match v_kind s with Unix => true | TCP => false end.
+
+(** a connection attempt succeeds: the latest asyncio server listens and - Unix - the path leads
+    to it *)
+Definition accepting (s : srv) : bool :=
+  v_listening s && (negb (is_unix s) || v_sockfile s).
 
 Definition set_conns (s : srv) (cs : list conn) : srv :=
   {| v_kind := v_kind s; v_started := v_started s; v_listening := v_listening s;
      v_stopreq := v_stopreq s; v_done := v_done s; v_sockfile := v_sockfile s; v_conns := cs;
-     v_refused := v_refused s |}.
+     v_refused := v_refused s; v_gen := v_gen s; v_drain := v_drain s; v_overlap := v_overlap s;
+     v_raised := v_raised s; v_pool_closed := v_pool_closed s |}.
+
+Definition refuse (s : srv) : srv :=
+  {| v_kind := v_kind s; v_started := v_started s; v_listening := v_listening s;
+     v_stopreq := v_stopreq s; v_done := v_done s; v_sockfile := v_sockfile s;
+     v_conns := v_conns s; v_refused := S (v_refused s); v_gen := v_gen s; v_drain := v_drain s;
+     v_overlap := v_overlap s; v_raised := v_raised s; v_pool_closed := v_pool_closed s |}.
+
+(** earlier runs: a cancelled task completes as soon as no session of its run is left; its final
+    callback then removes the Unix socket path - whichever run's file that is by now *)
+Definition settle_old (s : srv) : srv :=
+  let d := filter (fun g => negb (run_ended g (v_conns s))) (v_drain s) in
+  {| v_kind := v_kind s; v_started := v_started s; v_listening := v_listening s;
+     v_stopreq := v_stopreq s; v_done := v_done s;
+     v_sockfile := if Nat.eqb (length d) (length (v_drain s)) then v_sockfile s else false;
+     v_conns := v_conns s; v_refused := v_refused s; v_gen := v_gen s; v_drain := d;
+     v_overlap := v_overlap s; v_raised := v_raised s; v_pool_closed := v_pool_closed s |}.
+
+(** the latest run: after a stop request the serving task completes as soon as no session of the
+    run is left; the final callback then removes a Unix server's socket file (and raises if it is
+    gone already) *)
+Definition settle_cur (s : srv) : srv :=
+  if v_stopreq s && negb (v_done s) && run_ended (v_gen s) (v_conns s)
+  then {| v_kind := v_kind s; v_started := v_started s; v_listening := false;
+          v_stopreq := true; v_done := true; v_sockfile := false; v_conns := v_conns s;
+          v_refused := v_refused s; v_gen := v_gen s; v_drain := v_drain s;
+          v_overlap := v_overlap s; v_raised := is_unix s && negb (v_sockfile s);
+          v_pool_closed := v_pool_closed s |}
+  else s.
+
+Definition settle (s : srv) : srv := settle_cur (settle_old s).
+
+Definition new_conn (s : srv) (o se : bool) (r : nat) (h : bool) : conn :=
+  {| k_client_open := o; k_session := se; k_replies := r; k_hello := h; k_waiting := false;
+     k_gen := v_gen s |}.
+
+(** a fresh run of the same server object *)
+Definition start_run (s : srv) (overlapping : bool) : srv :=
+  {| v_kind := v_kind s; v_started := true; v_listening := true; v_stopreq := false;
+     v_done := false; v_sockfile := is_unix s;
+     v_conns := v_conns s; v_refused := v_refused s; v_gen := S (v_gen s);
+     v_drain := if overlapping then v_drain s ++ [v_gen s] else v_drain s;
+     v_overlap := v_overlap s || overlapping; v_raised := false;
+     v_pool_closed := v_pool_closed s |}.
+
+(** the line of client c is answered; the listen loop then re-checks is_serving() - of the latest
+    run - and ends the session (closing the connection) if that is false *)
+Definition answer (s : srv) (c : nat) (k : conn) : srv :=
+  settle (set_conns s (upd (v_conns s) c
+    {| k_client_open := true; k_session := v_listening s; k_replies := S (k_replies k);
+       k_hello := true; k_waiting := false; k_gen := k_gen k |})).
 
 Definition step (s : srv) (l : label) : srv :=
   match l with
   | LStart =>
-      (* a second serve_forever() while the first serving task is still alive is not modelled
-         (no-op here, never issued by the harness); once that task has completed, the same server
-         object can be started again: a fresh asyncio server on the same address *)
-      if v_started s && negb (v_done s) then s
-      else {| v_kind := v_kind s; v_started := true; v_listening := true; v_stopreq := false;
-              v_done := false;
-              v_sockfile := match v_kind s with Unix => true | TCP => false end;
-              v_conns := v_conns s; v_refused := v_refused s |}
+      if v_started s && negb (v_done s)
+      then
+        (* the previous task has not completed.  Cancelled already: a new run starts beside the
+           one that still drains.  Not even cancelled (a second serve_forever() while serving):
+           not modelled - no-op here, never issued by the harness *)
+        if v_stopreq s then start_run s true else s
+      else start_run s false
   | LConnect =>
-      if v_listening s
-      then set_conns s (v_conns s ++ [{| k_client_open := true; k_session := true;
-                                        k_replies := 1; k_hello := true; k_waiting := false |}])
-      else {| v_kind := v_kind s; v_started := v_started s; v_listening := v_listening s;
-              v_stopreq := v_stopreq s; v_done := v_done s; v_sockfile := v_sockfile s;
-              v_conns := v_conns s; v_refused := S (v_refused s) |}
+      if accepting s then set_conns s (v_conns s ++ [new_conn s true true 1 true]) else refuse s
   | LConnectBad =>
       (* client_handshake raises; the connected-callback's finally closes the connection; the
          client is not answered.  It counts as a connection that came and went. *)
-      if v_listening s
-      then set_conns s (v_conns s ++ [{| k_client_open := false; k_session := false;
-                                        k_replies := 0; k_hello := false; k_waiting := false |}])
-      else {| v_kind := v_kind s; v_started := v_started s; v_listening := v_listening s;
-              v_stopreq := v_stopreq s; v_done := v_done s; v_sockfile := v_sockfile s;
-              v_conns := v_conns s; v_refused := S (v_refused s) |}
+      if accepting s then set_conns s (v_conns s ++ [new_conn s false false 0 false]) else refuse s
   | LOpen =>
       (* the connection is accepted; the session coroutine waits in client_handshake() *)
-      if v_listening s
-      then set_conns s (v_conns s ++ [{| k_client_open := true; k_session := true;
-                                        k_replies := 0; k_hello := false; k_waiting := false |}])
-      else {| v_kind := v_kind s; v_started := v_started s; v_listening := v_listening s;
-              v_stopreq := v_stopreq s; v_done := v_done s; v_sockfile := v_sockfile s;
-              v_conns := v_conns s; v_refused := S (v_refused s) |}
+      if accepting s then set_conns s (v_conns s ++ [new_conn s true true 0 false]) else refuse s
   | LHello c =>
       match nth_error (v_conns s) c with
       | Some k =>
-          if k_client_open k && k_session k && negb (k_hello k)
-          then
-            (* the handshake is answered with the pool's name; listen() then checks is_serving()
-               and ends the session at once if the server was stopped meanwhile *)
-            let k' := {| k_client_open := true; k_session := v_listening s;
-                         k_replies := S (k_replies k); k_hello := true; k_waiting := false |} in
-            settle (set_conns s (upd (v_conns s) c k'))
-          else s
+          if k_client_open k && k_session k && negb (k_hello k) then answer s c k else s
       | None => s
       end
   | LSend c =>
       match nth_error (v_conns s) c with
       | Some k =>
           if k_client_open k && k_session k && k_hello k && negb (k_waiting k)
-          then
-            (* the line is answered; the listen loop then re-checks is_serving() and ends the
-               session (closing the connection) if the server was stopped meanwhile *)
-            let k' := {| k_client_open := true; k_session := v_listening s;
-                         k_replies := S (k_replies k); k_hello := true; k_waiting := false |} in
-            settle (set_conns s (upd (v_conns s) c k'))
-          else s
+          then answer s c k else s
       | None => s
       end
   | LSendWait c =>
       match nth_error (v_conns s) c with
       | Some k =>
           if k_client_open k && k_session k && k_hello k && negb (k_waiting k)
-          then set_conns s (upd (v_conns s) c
-                 {| k_client_open := true; k_session := true; k_replies := k_replies k;
-                    k_hello := true; k_waiting := true |})
+          then
+            if v_pool_closed s then answer s c k      (* until-closed returns at once *)
+            else set_conns s (upd (v_conns s) c
+                   {| k_client_open := true; k_session := true; k_replies := k_replies k;
+                      k_hello := true; k_waiting := true; k_gen := k_gen k |})
           else s
       | None => s
       end
@@ -153,7 +203,7 @@ Definition step (s : srv) (l : label) : srv :=
                             (* a session inside a waiting command does not notice: it stays *)
                             k_session := k_waiting k;
                             k_replies := k_replies k; k_hello := k_hello k;
-                            k_waiting := k_waiting k |}))
+                            k_waiting := k_waiting k; k_gen := k_gen k |}))
           else s
       | None => s
       end
@@ -169,7 +219,7 @@ Definition step (s : srv) (l : label) : srv :=
             settle (set_conns s (upd (v_conns s) c
                          {| k_client_open := false; k_session := w;
                             k_replies := k_replies k; k_hello := k_hello k;
-                            k_waiting := w |}))
+                            k_waiting := w; k_gen := k_gen k |}))
           else s
       | None => s
       end
@@ -177,8 +227,28 @@ Definition step (s : srv) (l : label) : srv :=
       if v_started s && negb (v_stopreq s)
       then settle {| v_kind := v_kind s; v_started := true; v_listening := false;
                      v_stopreq := true; v_done := false; v_sockfile := v_sockfile s;
-                     v_conns := v_conns s; v_refused := v_refused s |}
+                     v_conns := v_conns s; v_refused := v_refused s; v_gen := v_gen s;
+                     v_drain := v_drain s; v_overlap := v_overlap s; v_raised := v_raised s;
+                     v_pool_closed := v_pool_closed s |}
       else s
+  | LClosePool =>
+      (* every waiting command returns: a client that is still there gets its reply and the
+         session goes on (if the latest run serves); a session whose client has gone finds out
+         now and ends *)
+      let wake k :=
+        if k_waiting k
+        then if k_client_open k
+             then {| k_client_open := true; k_session := v_listening s;
+                     k_replies := S (k_replies k); k_hello := k_hello k; k_waiting := false;
+                     k_gen := k_gen k |}
+             else {| k_client_open := false; k_session := false; k_replies := k_replies k;
+                     k_hello := k_hello k; k_waiting := false; k_gen := k_gen k |}
+        else k in
+      settle {| v_kind := v_kind s; v_started := v_started s; v_listening := v_listening s;
+                v_stopreq := v_stopreq s; v_done := v_done s; v_sockfile := v_sockfile s;
+                v_conns := map wake (v_conns s); v_refused := v_refused s; v_gen := v_gen s;
+                v_drain := v_drain s; v_overlap := v_overlap s; v_raised := v_raised s;
+                v_pool_closed := true |}
   end.
 
 Definition run (k : transport) (tr : list label) : srv := fold_left step tr (init k).
